@@ -60,6 +60,14 @@ def check(spec, clauses=("bracket", "nonexc")):
             tests = [e[1] for e in ev if e[0] in ("startTest", "stopTest") or e[0] in OUTCOMES]
             if any(t is not obs["case"] for t in tests):
                 vs.append(V("bracket", "other-test", "events are about a different test object"))
+            # the bracket encloses the test: no user code before startTest or after the outcome was reported
+            lo, hi = obs["live"].exec_span
+            if hi >= 0 and flavour != "none":
+                i_start = names.index("startTest")
+                i_out = next(i for i, n in enumerate(names) if n in OUTCOMES)
+                if lo <= i_start or hi > i_out:
+                    vs.append(V("bracket", "user-code-outside-the-bracket", "user code ran while the result had seen %d..%d events; startTest is event %d, the outcome event %d (%r)" % (
+                        lo, hi, i_start, i_out, names)))
     outs = [n for n in names if n in OUTCOMES]
     # ---- decorated skips run nothing
     if model.skipped_by_decorator:
